@@ -69,6 +69,15 @@ def mk_register_classes(regs):
     return out
 
 
+def text_storage(storage, i):
+    """every storage name other than "BINARY" selects the textual adapters: "" (the default
+    argument of the readers and writers) and unknown names are used as often as "TEXT";
+    a class that declares nothing inherits the framework's default"""
+    if storage != "TEXT":
+        return storage
+    return ["TEXT", "", "TEXTUAL"][i % 3]
+
+
 def derived(cls, i):
     """every other declared type is an empty subclass of the class that carries the
     declarations (IDENTIFIER, LINE, patterns, read/write ...): what a type inherits must
@@ -82,7 +91,7 @@ def mk_register_file(regs, storage="TEXT", classes=None, io=None):
     from cfinterface.files.registerfile import RegisterFile
 
     classes = classes if classes is not None else mk_register_classes(regs)
-    ns = {"REGISTERS": classes, "STORAGE": storage, "__slots__": []}
+    ns = {"REGISTERS": classes, "STORAGE": text_storage(storage, len(regs)), "__slots__": []}
     if io:
         ns["ENCODING"] = io["enc"]
     return derived(type("RF", (RegisterFile,), ns), len(regs)), classes
@@ -203,7 +212,7 @@ def mk_block_classes(blocks, binary=False):
                     buf += c
                     if self.ends(c, "BINARY"):
                         break
-                self.data = [buf]
+                keep(self, [buf])
                 return True
 
         else:
@@ -217,18 +226,18 @@ def mk_block_classes(blocks, binary=False):
                     lines.append(line)
                     if self.ends(line):
                         break
-                self.data = lines
+                keep(self, lines)
                 return True
 
         def write(self, file: IO, *args, **kwargs):
-            for chunk in self.data:
+            for chunk in payload(self):
                 file.write(chunk)
             return True
 
         def eq(self, o):
-            return isinstance(o, self.__class__) and o.data == self.data
+            return isinstance(o, self.__class__) and payload(o) == payload(self)
 
-        cls = derived(type(f"Blk{i}", (Block,), {"BEGIN_PATTERN": beg, "END_PATTERN": end, "read": read, "write": write, "__eq__": eq, "__hash__": None, "__slots__": []}), i)
+        cls = derived(type(f"Blk{i}", (Block,), {"BEGIN_PATTERN": beg, "END_PATTERN": end, "read": read, "write": write, "__eq__": eq, "__hash__": None, "__slots__": own_slot(i)}), i)
         out.append(cls)
     return out
 
@@ -237,7 +246,7 @@ def mk_block_file(blocks, binary=False, classes=None):
     from cfinterface.files.blockfile import BlockFile
 
     classes = classes if classes is not None else mk_block_classes(blocks, binary)
-    return derived(type("BF", (BlockFile,), {"BLOCKS": classes, "STORAGE": "BINARY" if binary else "TEXT", "__slots__": []}), len(classes)), classes
+    return derived(type("BF", (BlockFile,), {"BLOCKS": classes, "STORAGE": "BINARY" if binary else text_storage("TEXT", len(classes)), "__slots__": []}), len(classes)), classes
 
 
 def enc_belem(e, classes, binary):
@@ -251,8 +260,25 @@ def enc_belem(e, classes, binary):
         return {"dflt": enc(d)}
     for i, c in enumerate(classes):
         if type(e) is c:
-            return {"cls": i, "raw": [enc(x) for x in e.data]}
+            return {"cls": i, "raw": [enc(x) for x in payload(e)]}
     return {"cls": 999, "raw": []}
+
+
+# every third declared block / section type keeps what it read in a slot of its own and
+# leaves the inherited `data` slot at None (the library does not require `data` to be used)
+def own_slot(i):
+    return ["raw"] if i % 3 == 2 else []
+
+
+def keep(obj, value):
+    if hasattr(type(obj), "raw"):  # the slot descriptor of an own-slot type
+        obj.raw = value
+    else:
+        obj.data = value
+
+
+def payload(obj):
+    return obj.raw if hasattr(type(obj), "raw") else obj.data
 
 
 # ------------------------------------------------------------------ sections
@@ -271,7 +297,7 @@ def mk_section_classes(secs):
                     if len(line) == 0:
                         break
                     lines.append(line)
-                self.data = lines
+                keep(self, lines)
                 return True
 
         else:
@@ -286,18 +312,18 @@ def mk_section_classes(secs):
                     lines.append(line)
                     if _p.search(line) is not None:
                         break
-                self.data = lines
+                keep(self, lines)
                 return True
 
         def write(self, file: IO, *args, **kwargs):
-            for chunk in self.data:
+            for chunk in payload(self):
                 file.write(chunk)
             return True
 
         def eq(self, o):
-            return isinstance(o, self.__class__) and o.data == self.data
+            return isinstance(o, self.__class__) and payload(o) == payload(self)
 
-        out.append(derived(type(f"Sec{i}", (Section,), {"read": read, "write": write, "__eq__": eq, "__hash__": None, "__slots__": []}), i))
+        out.append(derived(type(f"Sec{i}", (Section,), {"read": read, "write": write, "__eq__": eq, "__hash__": None, "__slots__": own_slot(i)}), i))
     return out
 
 
@@ -305,7 +331,7 @@ def mk_section_file(secs, classes=None):
     from cfinterface.files.sectionfile import SectionFile
 
     classes = classes if classes is not None else mk_section_classes(secs)
-    return derived(type("SF", (SectionFile,), {"SECTIONS": classes, "STORAGE": "TEXT", "__slots__": []}), len(classes)), classes
+    return derived(type("SF", (SectionFile,), {"SECTIONS": classes, "STORAGE": text_storage("TEXT", len(classes)), "__slots__": []}), len(classes)), classes
 
 
 def enc_selem(e, classes):
@@ -318,5 +344,5 @@ def enc_selem(e, classes):
         return {"dflt": codec.enc_str(d)}
     for i, c in enumerate(classes):
         if type(e) is c:
-            return {"cls": i, "raw": [codec.enc_str(x) for x in e.data]}
+            return {"cls": i, "raw": [codec.enc_str(x) for x in payload(e)]}
     return {"cls": 999, "raw": []}
